@@ -25,7 +25,9 @@ RULE = ('configurations: every signed format (1,iw,fw) with iw+fw <= 8 in same-f
         'formats -- reference = the 0/1 flag masked to the wire; composition configurations: the operand wires are two top-level wires (flat), '
         'a parent wire and a wire created inside the user block with the SAME local name (explicit name, or both numbered i0 by LogicHelper) or '
         'a different one, or one wire on both ports (flat and nested), for every format up to 5 bits (7 in thorough), three wide formats and '
-        'mixed-format multiplier triples; size class: formats of total width 257, 300, 512 and 1000 (same-format, all five blocks, and three '
+        'mixed-format multiplier triples; operand-source configurations: operand a, operand b or both driven directly by Constant blocks (every '
+        'single-bit value incl. the most negative encoding, 0, -1, largest positive, one +- 1 lsb, random) for every format up to 5 bits (7 in '
+        'thorough), (1,3,4), (1,7,8), (1,15,16) and four mixed multiplier triples, swept against the other operand; size class: formats of total width 257, 300, 512 and 1000 (same-format, all five blocks, and three '
         'mixed multiplier triples), every wire width computed independently, boundary x boundary + random operands.  evaluations = block outputs judged.  Non-trivial: both operands non-zero; '
         'distinct by content (configuration, x, y); in the thorough tier only the cases whose content hash is 0 mod 16 are registered, so '
         'distinct_nontrivial is a lower bound there (keeps the merged set small)')
@@ -49,6 +51,7 @@ def config_class(af, bf, rf):
     return 'mixed_window_fits'
 
 
+CONST_SCOPES = ('const_a', 'const_b', 'const_both')
 SCOPES = ('flat', 'nested_equal_names', 'nested_helper_names', 'nested_distinct_names', 'same_wire', 'nested_same_wire')
 _WRAP = None
 
@@ -117,6 +120,18 @@ class Rig:
                 self.a, self.b = hw.wire('a', wa), hw.wire('b', wb)
                 instantiate(py4hw, hw, self.a, self.b, self.af, self.bf, self.rf, outs)
                 self.operand_names = ('a', 'b')
+            elif self.scope in CONST_SCOPES:
+                # operand-source class: one or both operand wires are driven DIRECTLY by py4hw.Constant blocks (flags[5] = (ka, kb));
+                # the other one stays a poked wire
+                ka, kb = self.flags[5]
+                self.a, self.b = hw.wire('a', wa), hw.wire('b', wb)
+                self.const = (ka if self.scope != 'const_b' else None, kb if self.scope != 'const_a' else None)
+                if self.const[0] is not None:
+                    py4hw.Constant(hw, 'ka', self.const[0], self.a)
+                if self.const[1] is not None:
+                    py4hw.Constant(hw, 'kb', self.const[1], self.b)
+                instantiate(py4hw, hw, self.a, self.b, self.af, self.bf, self.rf, outs)
+                self.operand_names = tuple('Constant(%#x)' % c if c is not None else 'poked wire' for c in self.const)
             elif self.scope == 'same_wire':
                 assert wa == wb
                 self.a = self.b = hw.wire('a', wa)
@@ -140,8 +155,10 @@ class Rig:
             self.sim = hw.getSimulator()
 
     def step(self, x, y):
-        self.a.put(x)
-        if self.b is not self.a:
+        const = getattr(self, 'const', (None, None))
+        if const[0] is None:
+            self.a.put(x)
+        if self.b is not self.a and const[1] is None:
             self.b.put(y)
         with muted():
             self.sim.propagateAll()
@@ -297,6 +314,25 @@ def configs(tier, seed):
     for f in small_formats(4 if tier == 'quick' else 6) + [(1, 7, 8), (1, 15, 16), (1, 31, 32), HUGE[0]]:
         for sc in SCOPES[1:]:
             out.append((f, f, f, 'exhaustive' if sum(f) <= (6 if tier == 'quick' else 7) else 'boundary', (1, 1, 1, 1, sc)))
+    # operand-source configurations: operands driven by Constant blocks -- every single-bit value (2**k scalings, including the most
+    # negative encoding 1 << (w-1)), 0, -1 (all ones), the largest positive value, 1 lsb below/above 'one', random
+    def const_values(f):
+        w = sum(f)
+        m = (1 << w) - 1
+        vals = {0, m, (1 << (w - 1)) - 1, (1 << (w - 1)) | 1, rnd.getrandbits(w)} | {1 << k for k in range(w)}
+        if f[2] < w:
+            vals |= {((1 << f[2]) - 1) & m, ((1 << f[2]) + 1) & m, (-(1 << f[2])) & m}
+        return sorted(vals)
+    for f in small_formats(4 if tier == 'quick' else 6) + [(1, 3, 4), (1, 7, 8), (1, 15, 16)]:
+        for kv in const_values(f):
+            for sc in ('const_a', 'const_b'):
+                out.append((f, f, f, 'boundary', (1, 1, 1, 1, sc, (kv, kv))))
+        for kv in const_values(f)[:: (3 if tier == 'quick' else 1)]:
+            out.append((f, f, f, 'boundary', (1, 1, 1, 1, 'const_both', (kv, rnd.choice(const_values(f))))))
+    for af, bf, rf in [((1, 3, 4), (1, 7, 8), (1, 11, 12)), ((1, 1, 2), (1, 2, 1), (1, 2, 2)), ((1, 0, 7), (1, 0, 7), (1, 7, 8)), ((1, 2, 2), (1, 2, 2), (1, 4, 4))]:
+        for sc, f in (('const_a', af), ('const_b', bf)):
+            for kv in const_values(f):
+                out.append((af, bf, rf, 'boundary', (1, 1, 1, 1, sc, (kv, kv))))
     n = 0
     for af, bf, rf in [((1, 0, 15), (1, 0, 15), (1, 15, 16)), ((1, 7, 8), (1, 7, 8), (1, 15, 16)), ((1, 3, 4), (1, 7, 8), (1, 11, 12)),
                        ((1, 1, 2), (1, 2, 1), (1, 2, 2)), ((1, 0, 3), (1, 3, 0), (1, 3, 3)), ((1, 2, 2), (1, 2, 2), (1, 4, 4))] + \
@@ -311,8 +347,17 @@ def configs(tier, seed):
     return out
 
 
-def operand_pairs(af, bf, mode, tier, rnd, scope='flat'):
+def operand_pairs(af, bf, mode, tier, rnd, scope='flat', consts=None):
     wa, wb = sum(af), sum(bf)
+    if scope in CONST_SCOPES:
+        ka, kb = consts
+        xs = range(1 << wa) if (mode == 'exhaustive' or wa <= 8) else bset(wa, af[2], rnd, 30 if tier == 'quick' else 300)
+        ys = range(1 << wb) if (mode == 'exhaustive' or wb <= 8) else bset(wb, bf[2], rnd, 30 if tier == 'quick' else 300)
+        if scope == 'const_a':
+            return ((ka, y) for y in ys)
+        if scope == 'const_b':
+            return ((x, kb) for x in xs)
+        return iter([(ka, kb)])
     if scope.endswith('same_wire'):
         # one wire on both ports: the second operand IS the first
         xs = range(1 << wa) if mode == 'exhaustive' else bset(wa, af[2], rnd, 40 if tier == 'quick' else 400)
@@ -397,7 +442,7 @@ def run_check(run, tier, seed, shard):
         rnd = rng(seed, 'C14', 'ops', af, bf, rf, flags, shard)
         e0 = run.evaluations
         npairs = 0
-        for j, (x, y) in enumerate(operand_pairs(af, bf, mode, tier, rnd, scope)):
+        for j, (x, y) in enumerate(operand_pairs(af, bf, mode, tier, rnd, scope, flags[5] if len(flags) > 5 else None)):
             if heavy and j % nsh != i:
                 continue
             try:
